@@ -89,8 +89,14 @@ def _observe_cpython(case, top, mods):
         scope = _scope_object(mods, modpath, qual)
         ns = vars(scope)
         name = st_["name"]
+        instance = None
         for site in st_["sites"]:
             what = site["what"]
+            if what.startswith("init"):
+                if instance is None:
+                    instance = scope()  # runs the local imports of __init__ and records the bindings
+                out[(site["id"], what)] = _expected(vars(instance)[site["id"]], allmap)
+                continue
             if what == "ann":
                 value = ns["__annotations__"][name]
             elif what == "val":
@@ -128,9 +134,9 @@ def _observe_cpython(case, top, mods):
 
 
 def _griffe_expr(gobj, st_, what):
-    if what in ("ann", "str", "strcall"):
+    if what in ("ann", "str", "strcall", "init-ann"):
         return gobj.annotation
-    if what == "val":
+    if what in ("val", "init-val"):
         return gobj.value
     if what == "param-ann":
         return gobj.parameters["p"].annotation
@@ -154,10 +160,11 @@ def check_case(case) -> list[Fail]:
     try:
         G.write_files(root, G.render(case, top))
         try:
-            mods = G.cpython_import(root, top, case)
+            # observed while the package is still importable: `__init__` bodies import when instantiated
+            mods = G.cpython_import(root, top, case, after=lambda m: _observe_cpython(case, top, m))
         except G.CPythonImportError as exc:
             raise HarnessError(f"generated package is not importable: {exc}") from exc
-        expected = _observe_cpython(case, top, mods)
+        expected = mods["$after"]
         pkg = call(
             "total", griffe.load, top, search_paths=[str(root)], allow_inspection=False, resolve_aliases=True,
             resolve_implicit=True, what="griffe.load(resolve_aliases=True, resolve_implicit=True)",
@@ -168,18 +175,20 @@ def check_case(case) -> list[Fail]:
         src_text = lambda: G.show(case, "P")  # noqa: E731
         info = S.site_info(case)
         for modpath, qual, st_ in S.all_sites(case):
-            spath = ".".join([G.dotted(top, modpath), *qual, st_["name"]])
-            try:
-                gobj = coll.get_member(spath)
-            except KeyError:
-                raise HarnessError(f"site object {spath} not in the Griffe tree\n{G.show(case, top)}") from None
             for site in st_["sites"]:
                 what = site["what"]
-                exp = expected[(st_["name"], what)]
+                sid = S.site_id(st_, site)
+                # instance attributes assigned in __init__ are members of the class
+                spath = ".".join([G.dotted(top, modpath), *qual, sid])
+                try:
+                    gobj = coll.get_member(spath)
+                except KeyError:
+                    raise HarnessError(f"site object {spath} not in the Griffe tree\n{G.show(case, top)}") from None
+                exp = expected[(sid, what)]
                 text = site["expr"].replace("$TOP", top)
                 where = f"{norm(spath)} [{what}] `{norm(text)}`"
-                detail = {"site": st_["name"], "what": what}
-                feat = info[st_["name"]][what]["label"]
+                detail = {"site": sid, "what": what}
+                feat = info[sid][what]["label"]
                 gexpr = _griffe_expr(gobj, st_, what)
                 if isinstance(gexpr, str):
                     gpath = gexpr
@@ -227,7 +236,7 @@ def check_case(case) -> list[Fail]:
                 root_expr = gexpr.values[0] if isinstance(gexpr, griffe.ExprAttribute) else gexpr
                 if isinstance(root_expr, griffe.ExprName):
                     root_path = root_expr.canonical_path
-                    just = {j.replace("$TOP", top) for j in info[st_["name"]][what]["justified"]}
+                    just = {j.replace("$TOP", top) for j in info[sid][what]["justified"]}
                     if root_path not in just and root_path not in cobj["paths"]:
                         fails.append(
                             Fail(
